@@ -282,6 +282,24 @@ Definition move_forward (L : list param) (v : vec) (from to : Z) : vec * list ev
   if all_triv L then move_forward_triv L v from to
   else move_forward_nt L v from to (Z.to_nat (vsize L v - from)).
 
+(* ---------- emplace(position, args...) (vector.hpp:174-188, elementLocator.hpp:249-256) ----------
+   lists WITHOUT a VaryingSize parameter and with trivially relocatable types - the lists on
+   which the code is functional (upstream's own tests of emplace() are skipped): the new element
+   is emplaced at the back, everything from the position on - the new element included - is
+   memmoved up by the size of the new element (through the bytes BEHIND data_end()), and the
+   copy of the new element that now lies behind data_end() is memcpy'd to the position *)
+Definition emplace_pos (L : list param) (v : vec) (i : Z) (vals : list (list (list Z))) : vec * list ev :=
+  let target := eaddr L v i in
+  let back_begin := dend L v in
+  let '(v1, e1) := emplace_back L v vals in
+  let back_end := dend L v1 in
+  let bc := back_end - back_begin in
+  let src := eaddr L v1 i in
+  let cnt := back_end - src in
+  let m1 := mmove (v_mem v1) src (src + bc) cnt in
+  let m2 := mmove m1 back_end target bc in
+  (set_mem v1 m2, e1 ++ [ERaw (bidn (v_bid v)) (src + bc) (src + bc + cnt); ERaw (bidn (v_bid v)) target (target + bc)]).
+
 (* ---------- pop_back, erase, clear (vector.hpp:183-225) ---------- *)
 Definition pop_back (L : list param) (v : vec) : vec * list ev :=
   let n := vsize L v in
